@@ -39,6 +39,8 @@ ENGINES = [
      "kind_free_text": "real rqlite nodes (store+raft+bbolt+SQLite+cluster service/client+proxy+mux) in one testing/synctest bubble over a simulated network; one event per scheduler step chosen by a seeded PRNG"},
     {"name": "E3 walsim", "path": "sim/walsim", "serves_properties": ["C05", "C06"],
      "kind_free_text": "one driver goroutine holding several connections (rqlite db.DB write connection + CheckpointManager, reader connections holding read marks) to one real WAL-mode SQLite database; a seeded schedule decides which connection acts next (writer transaction, reader start/stop, snapshot attempt, disk fault on a WAL copy); SQLite itself is the reference for applying WALs"},
+    {"name": "E2 crashsim (snapshot store)", "path": "sim/crash, sim/snapsim", "serves_properties": ["C07", "C08", "C09"],
+     "kind_free_text": "the real snapshot.Store / upgraders / plan executor driven sequentially by a stand-in for store.Store over a real SQLite history; a crash is a directory image taken inside the verifhook handler at the k-th hook occurrence (every occurrence enumerated, plus a second crash during each recovery run, plus derived torn states), restored at the same path and re-opened; restore-and-dump oracle and abstract catalog model"},
 ]
 
 NOT_APPLICABLE = {
